@@ -1,7 +1,166 @@
-(** C06 - placeholder obligations until PathsProofs lands. *)
-From Coq Require Import ZArith List.
-From V Require Import Base Perm PermProofs.
-Theorem C06_inverse_generator_undoes : forall (A : Type) (d : A) p (x : list A), Perm p -> length x = length p ->
-  apply_perm d (inverse_perm p) (apply_perm d p x) = x /\ apply_perm d p (apply_perm d (inverse_perm p) x) = x.
-Proof. exact @inverse_undoes. Qed.
-Print Assumptions C06_inverse_generator_undoes.
+(** C06 - Beam search never reports a path that does not exist, and is exact when unpruned. Statements only: every proof is [exact] of a lemma proved elsewhere.
+    For EVERY selection oracle (the unstable argsort), score function, beam width and step budget. reach [start] k c = a walk of exactly k edges from start to c exists.
+    The ball theorem needs an inverse map (inverse-closed generators): on non-inverse-closed graphs the statement is false (known finding F15).
+    (Statements are the lemmas' closed types as printed by Coq, hence the qualified names.) *)
+From V Require Import Base Tensor Graph GraphProofs GraphImpl Def Paths BfsStep PathsProofs Beam BeamProofs.
+
+(* simple mode: success means a real walk of exactly the reported length; a returned path replays to the central state and has that length *)
+Theorem C06_simple_sound_noball :
+  forall (G Ginv : impl) (U : state -> Prop),
+         closed state (acts G) U ->
+         closed state (acts Ginv) U ->
+         (forall a b : state, U a -> U b -> hashf G a = hashf G b -> a = b) ->
+         (is_identity G = true -> forall a : state, U a -> unword G (hashf G a) = a) ->
+         length (acts Ginv) = length (acts G) ->
+         (forall (i : nat) (g gi : state -> state) (x : state),
+          List.nth_error (acts G) i = Some g ->
+          List.nth_error (acts Ginv) i = Some gi -> U x -> g (gi x) = x /\ gi (g x) = x) ->
+         forall start : state,
+         U start ->
+         U (central G) ->
+         forall (inv_map : option (list nat)) (width : nat) (return_path : bool)
+           (max_steps : BinNums.N) (sels : list selection) (r : beam_result),
+         search_simple G Ginv inv_map width return_path None start max_steps sels = Ok r ->
+         path_found r = true ->
+         reach state (acts G) (start :: nil) (path_length r) (central G) /\
+         (forall p : list nat,
+          bpath r = Some p ->
+          length p = path_length r /\ run state (acts G) start p = Some (central G)).
+Proof. exact @simple_sound_noball. Qed.
+Print Assumptions C06_simple_sound_noball.
+
+(* the same with a pre-computed BFS ball, on inverse-closed graphs *)
+Theorem C06_simple_sound_ball :
+  forall (G Ginv : impl) (U : state -> Prop),
+         closed state (acts G) U ->
+         closed state (acts Ginv) U ->
+         (forall a b : state, U a -> U b -> hashf G a = hashf G b -> a = b) ->
+         (is_identity G = true -> forall a : state, U a -> unword G (hashf G a) = a) ->
+         length (acts Ginv) = length (acts G) ->
+         (forall (i : nat) (g gi : state -> state) (x : state),
+          List.nth_error (acts G) i = Some g ->
+          List.nth_error (acts Ginv) i = Some gi -> U x -> g (gi x) = x /\ gi (g x) = x) ->
+         forall start : state,
+         U start ->
+         U (central G) ->
+         forall (m : list nat) (lh : list (list BinNums.Z)) (ns width : nat) 
+           (return_path : bool) (max_steps : BinNums.N) (sels : list selection) 
+           (r : beam_result),
+         (forall (i : nat) (g : state -> state),
+          List.nth_error (acts G) i = Some g ->
+          exists g' : state -> state,
+            List.nth_error (acts G) (List.nth i m 0) = Some g' /\
+            (forall x : state, U x -> g' (g x) = x)) ->
+         inv_closed G = true ->
+         ball_ok G (central G) lh ->
+         length lh = ns ->
+         1 <= ns ->
+         search_simple G Ginv (Some m) width return_path (Some (lh, ns)) start max_steps sels = Ok r ->
+         path_found r = true ->
+         reach state (acts G) (start :: nil) (path_length r) (central G) /\
+         (forall p : list nat,
+          bpath r = Some p ->
+          length p = path_length r /\ run state (acts G) start p = Some (central G)).
+Proof. exact @simple_sound_ball. Qed.
+Print Assumptions C06_simple_sound_ball.
+
+(* advanced mode, any history depth: success means a real walk of exactly the reported length *)
+Theorem C06_advanced_sound :
+  forall (G : impl) (U : state -> Prop),
+         closed state (acts G) U ->
+         (forall a b : state, U a -> U b -> hashf G a = hashf G b -> a = b) ->
+         (is_identity G = true -> forall a : state, U a -> unword G (hashf G a) = a) ->
+         forall start : state,
+         U start ->
+         forall (width history : nat) (max_steps : BinNums.N) (sels : list selection)
+           (r : beam_result),
+         search_advanced G width history start (central G) max_steps sels = Ok r ->
+         path_found r = true -> reach state (acts G) (start :: nil) (path_length r) (central G).
+Proof. exact @advanced_sound. Qed.
+Print Assumptions C06_advanced_sound.
+
+(* hence the reported length is never below the true distance *)
+Theorem C06_simple_noball_ge_dist :
+  forall (G Ginv : impl) (U : state -> Prop),
+         closed state (acts G) U ->
+         closed state (acts Ginv) U ->
+         (forall a b : state, U a -> U b -> hashf G a = hashf G b -> a = b) ->
+         (is_identity G = true -> forall a : state, U a -> unword G (hashf G a) = a) ->
+         length (acts Ginv) = length (acts G) ->
+         (forall (i : nat) (g gi : state -> state) (x : state),
+          List.nth_error (acts G) i = Some g ->
+          List.nth_error (acts Ginv) i = Some gi -> U x -> g (gi x) = x /\ gi (g x) = x) ->
+         forall start : state,
+         U start ->
+         U (central G) ->
+         forall (inv_map : option (list nat)) (width : nat) (return_path : bool)
+           (max_steps : BinNums.N) (sels : list selection) (r : beam_result) 
+           (d : nat),
+         search_simple G Ginv inv_map width return_path None start max_steps sels = Ok r ->
+         path_found r = true ->
+         dist_is state (acts G) (start :: nil) (central G) d -> d <= path_length r.
+Proof. exact @simple_noball_ge_dist. Qed.
+Print Assumptions C06_simple_noball_ge_dist.
+
+(* no assertion can fire without a ball (the only model error is an inconsistent oracle recording) *)
+Theorem C06_simple_total_noball :
+  forall (G Ginv : impl) (U : state -> Prop),
+         closed state (acts G) U ->
+         closed state (acts Ginv) U ->
+         (forall a b : state, U a -> U b -> hashf G a = hashf G b -> a = b) ->
+         (is_identity G = true -> forall a : state, U a -> unword G (hashf G a) = a) ->
+         length (acts Ginv) = length (acts G) ->
+         (forall (i : nat) (g gi : state -> state) (x : state),
+          List.nth_error (acts G) i = Some g ->
+          List.nth_error (acts Ginv) i = Some gi -> U x -> g (gi x) = x /\ gi (g x) = x) ->
+         forall start : state,
+         U start ->
+         U (central G) ->
+         forall (inv_map : option (list nat)) (width : nat) (return_path : bool)
+           (max_steps : BinNums.N) (sels : list selection),
+         1 <= width ->
+         List.Forall (fun _ : selection => True) sels ->
+         (exists r : beam_result,
+            search_simple G Ginv inv_map width return_path None start max_steps sels = Ok r) \/
+         search_simple G Ginv inv_map width return_path None start max_steps sels = Err RuntimeErr.
+Proof. exact @simple_total_noball. Qed.
+Print Assumptions C06_simple_total_noball.
+
+(* unpruned (beam wider than the orbit) with budget >= distance: success with exactly the shortest distance *)
+Theorem C06_simple_unpruned_exact :
+  forall (G Ginv : impl) (U : state -> Prop),
+         closed state (acts G) U ->
+         (forall a b : state, U a -> U b -> hashf G a = hashf G b -> a = b) ->
+         (is_identity G = true -> forall a : state, U a -> unword G (hashf G a) = a) ->
+         forall start : state,
+         U start ->
+         U (central G) ->
+         forall (inv_map : option (list nat)) (width : nat) (max_steps : BinNums.N) (d : nat),
+         (forall l : list state,
+          List.NoDup l -> (forall t : state, List.In t l -> U t) -> length l < width) ->
+         dist_is state (acts G) (start :: nil) (central G) d ->
+         d <= BinNat.N.to_nat max_steps ->
+         exists r : beam_result,
+           search_simple G Ginv inv_map width false None start max_steps nil = Ok r /\
+           path_found r = true /\ path_length r = d.
+Proof. exact @simple_unpruned_exact. Qed.
+Print Assumptions C06_simple_unpruned_exact.
+
+(* the same in advanced mode for EVERY history depth (stale ring-buffer rows only ban states at smaller distance) *)
+Theorem C06_advanced_unpruned_exact :
+  forall (G : impl) (U : state -> Prop),
+         closed state (acts G) U ->
+         (forall a b : state, U a -> U b -> hashf G a = hashf G b -> a = b) ->
+         (is_identity G = true -> forall a : state, U a -> unword G (hashf G a) = a) ->
+         forall start : state,
+         U start ->
+         forall (width history : nat) (max_steps : BinNums.N) (d : nat),
+         (forall l : list state,
+          List.NoDup l -> (forall t : state, List.In t l -> U t) -> length l < width) ->
+         dist_is state (acts G) (start :: nil) (central G) d ->
+         d <= BinNat.N.to_nat max_steps ->
+         exists r : beam_result,
+           search_advanced G width history start (central G) max_steps nil = Ok r /\
+           path_found r = true /\ path_length r = d.
+Proof. exact @advanced_unpruned_exact. Qed.
+Print Assumptions C06_advanced_unpruned_exact.
